@@ -115,6 +115,42 @@ class EvenAverage(Contract):
         }
 
 
+class SecondCallAndFrame(Contract):
+    """The helpers keep nothing from one call to the next and leave the caller's lists alone: a call with an impossible
+    value followed by a call of the same length (resp. with the same weights list) still returns the mean of the valid
+    values (literal length 3, values symbolic)."""
+    prop = "C17"
+    file = IU
+    np_floats = False
+
+    def __init__(self, which):
+        self.which = which
+        self.func = "ImportUtilities.average_percentages" if which == "even" else "ImportUtilities.weighted_average_percentages"
+        self.name = f"second_call_{which}"
+
+    def inputs(self, S):
+        a, b, c = S.real("a"), S.real("b"), S.real("c")
+        S.assume(And(a >= -100, a <= 100000, b >= -100, b <= 100000, c >= -100, c <= 100000))
+        big = Fraction(10) ** 11
+        if self.which == "even":
+            calls = [dict(func=self.func, args=[[big, unwrap(a), unwrap(b)]]), dict(func=self.func, args=[[unwrap(c), big, big]])]
+            return dict(calls=calls, a=a, b=b, c=c)
+        w = [Fraction(1, 4), Fraction(1, 2), Fraction(1, 4)]
+        self.w = w
+        calls = [dict(func=self.func, args=[[unwrap(a), big, unwrap(b)], w]), dict(func=self.func, args=[[unwrap(a), unwrap(c), unwrap(b)], w])]
+        return dict(calls=calls, a=a, b=b, c=c)
+
+    def ensures(self, S, p, res):
+        r1, r2 = res[0], res[1]
+        a, b, c = p["a"], p["b"], p["c"]
+        if self.which == "even":
+            return {"first_call_is_the_mean_of_its_valid_values": r1 * 2 == a + b,
+                    "second_call_is_not_affected_by_the_first": r2 == c}
+        return {"first_call_is_the_weighted_mean_of_its_valid_values": r1 * Fraction(1, 2) == a * Fraction(1, 4) + b * Fraction(1, 4),
+                "second_call_is_not_affected_by_the_first": r2 == a * Fraction(1, 4) + c * Fraction(1, 2) + b * Fraction(1, 4),
+                "callers_weights_left_as_they_were": V(self.w == [Fraction(1, 4), Fraction(1, 2), Fraction(1, 4)])}
+
+
 # ---- ground obligations on the shipped combined table ------------------------------------------------------
 
 FRACTION_COLS = ["distribution_loss_crops", "distribution_loss_sugar", "distribution_loss_meat", "distribution_loss_dairy",
@@ -238,7 +274,7 @@ def ground_verify_country_data(repo, tier, seed):
              "replay": None if ok else {"verdict": "violates-natively", "detail": str(failures[:5])}}]
 
 
-CONTRACTS = [WeightedAverage()] + [EvenAverage(n) for n in (1, 2, 3, 5)]
+CONTRACTS = [WeightedAverage()] + [EvenAverage(n) for n in (1, 2, 3, 5)] + [SecondCallAndFrame("even"), SecondCallAndFrame("weighted")]
 EXTRA = [ground_table, ground_verify_country_data]
 TRUSTED = [
     "machine floats treated as mathematical reals (sentinel 9.37e36 exact)",
